@@ -55,6 +55,14 @@ impl RawConnector {
             scorer_builder,
         } = RawConnectorBuilder::from_readers(right_rdr, left_rdr, cost_rdr)?;
 
+        // Without any feature template there are no rows to lay out (and `chunks_mut(0)` below would panic).
+        if feat_template_size == 0 {
+            return Err(VibratoError::invalid_format(
+                "bigram.right/bigram.left",
+                "at least one feature template is required.",
+            ));
+        }
+
         // Adjusts to a multiple of SIMD_SIZE for AVX2 compatibility.
         //
         // In nightly: feat_template_size = feat_template_size.next_multiple_of(SIMD_SIZE);
